@@ -157,9 +157,15 @@ func Walk(v Visitor, node ast.Node) {
 
 	case *ast.FuncType:
 		for _, param := range n.Parameters {
+			if param.Ident != nil {
+				Walk(v, param.Ident)
+			}
 			Walk(v, param.Type)
 		}
 		for _, res := range n.Result {
+			if res.Ident != nil {
+				Walk(v, res.Ident)
+			}
 			Walk(v, res.Type)
 		}
 
@@ -203,7 +209,15 @@ func Walk(v Visitor, node ast.Node) {
 			Walk(v, value)
 		}
 
+	case *ast.Raw:
+		if n.Text != nil {
+			Walk(v, n.Text)
+		}
+
 	case *ast.Select:
+		if n.LeadingText != nil {
+			Walk(v, n.LeadingText)
+		}
 		for _, c := range n.Cases {
 			Walk(v, c)
 		}
@@ -246,9 +260,20 @@ func Walk(v Visitor, node ast.Node) {
 			Walk(v, child)
 		}
 
+	case *ast.StructType:
+		for _, field := range n.Fields {
+			for _, ident := range field.Idents {
+				Walk(v, ident)
+			}
+			Walk(v, field.Type)
+		}
+
 	case *ast.Switch:
 		Walk(v, n.Init)
 		Walk(v, n.Expr)
+		if n.LeadingText != nil {
+			Walk(v, n.LeadingText)
+		}
 		for _, c := range n.Cases {
 			Walk(v, c)
 		}
@@ -260,11 +285,19 @@ func Walk(v Visitor, node ast.Node) {
 
 	case *ast.TypeAssertion:
 		Walk(v, n.Expr)
+		Walk(v, n.Type)
+
+	case *ast.TypeDeclaration:
+		Walk(v, n.Ident)
+		Walk(v, n.Type)
 
 	case *ast.TypeSwitch:
 		Walk(v, n.Init)
 		if n.Assignment != nil {
 			Walk(v, n.Assignment)
+		}
+		if n.LeadingText != nil {
+			Walk(v, n.LeadingText)
 		}
 		for _, c := range n.Cases {
 			Walk(v, c)
@@ -304,7 +337,6 @@ func Walk(v Visitor, node ast.Node) {
 		*ast.Identifier,
 		*ast.Comment,
 		*ast.Text,
-		*ast.Raw,
 		*ast.Placeholder,
 		*ast.Interface,
 		*ast.Fallthrough:
